@@ -12,6 +12,7 @@ CONSTANTS
     Dedup = TRUE
     FailCleansUp = TRUE
     MaxDeaths = 1
+    CacheLookup = FALSE
     StopAtFirstError = FALSE
 SYMMETRY MCSymmetry
 INVARIANTS
